@@ -113,6 +113,9 @@ def run(ctx):
     c11.write_through(ctx, "C20.R6")
     r7_length_authority(ctx)
     r8_term_lists(ctx)
+    # encode() sizes its work by len(<dense row>) and then walks the row: a row view whose len is smaller than what it iterates loses its trailing features silently
+    from . import c13
+    c13.r19_len_iter_agreement(ctx, rule="C20.R9")
 
 
 def r1_key_domain(ctx):
@@ -431,6 +434,7 @@ def _memo_iter(tree):
 
 
 CONTROLS = [
+    ("HeadDense measures its header map", "coba/pipes/rows.py", M.replace_expr("HeadDense.__len__", "len(self._row)", "len(self.headers)"), "C20.R9"),
     ("a string of terms is split into characters", "coba/environments/synthetics.py", M.replace_expr("LinearSyntheticSimulation.__init__", "[reward_features]", "list(reward_features)"), "C20.R8"),
     ("LinUCB strips x terms only for None", "coba/learners/linucb.py", M.replace_expr("LinUCBLearner._initialize", "not context", "context is None"), "C20.R8"),
     ("monomials counted by a formula", "coba/environments/synthetics.py", M.replace_expr("LinearSyntheticSimulation.read", "len(feats_encoder.encode(x=[1] * n_context_features, a=[1] * n_action_features))",
